@@ -562,6 +562,13 @@ def changed_ops(hp):
     return sorted(out)
 
 
+def known_c11():
+    """listed findings of this property (read from known/C11.json only: other files in known/ need not be entry lists)"""
+    p = os.path.join(VERIF, "known", "C11.json")
+    ks = json.load(open(p)) if os.path.exists(p) else []
+    return [k for k in ks if isinstance(k, dict) and k.get("property") == "C11" and k.get("status") == "finding"]
+
+
 def corpus_cases():
     out = []
     cdir = os.path.join(VERIF, "corpus", "C11")
@@ -658,7 +665,7 @@ def run(ctx):
     for d, why in mism[:5]:
         ctx.log("disagreement on `%s`: %s" % (d["text"], why[:300]))
 
-    for k in ctx.known():
+    for k in known_c11():
         # listed findings (none at the moment: both defects found were repaired) are reported while they reproduce
         w = k.get("witness", {})
         if w.get("lexemes"):
